@@ -32,7 +32,10 @@ def main(argv=None):
         if args.replay:
             with open(args.replay) as f:
                 body = json.load(f)
-            if isinstance(body.get('case'), dict) and body['case'].get('kind') == 'reentrancy':
+            if isinstance(body.get('case'), dict) and body['case'].get('kind') == 'first_use':
+                from . import conc
+                bad = conc.replay_first_use(body['case'])
+            elif isinstance(body.get('case'), dict) and body['case'].get('kind') == 'reentrancy':
                 from . import conc
                 bad = conc.replay(body['case'])
             else:
